@@ -458,7 +458,7 @@ func runWorkers(propv, tierv string, seedv uint64, engine string) int {
 			if len(head) > 1500 {
 				head = head[:1500]
 			}
-			fmt.Fprintf(os.Stderr, "HARNESS-ERROR: worker %d failed: %v (progress file: %v)\n%s\n...\n%s\n", r.idx, r.err, perr, head, tail(r.out, 1500))
+			fmt.Fprintf(os.Stderr, "HARNESS-ERROR: worker %d failed: %v (progress file: %v, %d bytes %q; output %d bytes, fatal error text: %v)\n%s\n...\n%s\n", r.idx, r.err, perr, len(pb), clipS(string(pb), 120), len(r.out), strings.Contains(r.out, "fatal error"), head, tail(r.out, 1500))
 			continue
 		}
 		b, err := os.ReadFile(filepath.Join(tmp, fmt.Sprintf("w%d.json", r.idx)))
